@@ -149,7 +149,7 @@ Record setup := { s_pre : str; s_src : list str }.
 Definition tunnel_setup (k : kind) (pp : bool) (line : str) (segs : list str) : setup :=
   match k with
   | KTcp => {| s_pre := if pp then line else []; s_src := segs |}
-  | KDyn => {| s_pre := []; s_src := segs |}     (* tcp_dynamic_proxy.go never writes the header *)
+  | KDyn => {| s_pre := if pp then line else []; s_src := segs |}   (* since fix commit 341d532 *)
   | _ => {| s_pre := []; s_src := segs |}
   end.
 
@@ -180,6 +180,12 @@ Definition upstream_stream_f (k : kind) (pp : bool) (line : str) (segs : list st
       let st := tunnel_setup k pp line segs in
       do c <- copy_buffer_st fin (s_src st); Ok (Some (s_pre st ++ c))
   end.
+
+(* ---------- the unrepaired tcp-dynamic proxy (before fix commit 341d532) ----------
+   kept only for the refutation theorem C09_dynamic_ignores_proxyproto_refuted:
+   DynamicProxy.ServeTCP never called WriteProxyHeader, whatever the target's pxyproto option *)
+Definition upstream_stream_dyn_unrepaired (segs : list str) : outcome (option str) :=
+  do c <- copy_buffer segs; Ok (Some c).
 
 (* ---------- the unrepaired tcp+sni copier (before fix commit c17abb6) ----------
    kept only for the refutation theorem C09_sni_leftover_refuted: the copy read the raw
@@ -399,6 +405,4 @@ Definition region_half_close (cwait : bool) (ce : cend) : bool :=
 (* F-C09-3: the upstream's 101 reply arrives with fewer than 12 bytes in its first segment *)
 Definition region_ws_split (k : kind) (reply : str) (rseg1 : N) : bool :=
   match k with KWs => has_prefix reply ws_101 && (0 <? rseg1) && (rseg1 <? 12) | _ => false end.
-(* F-C09-4: tcp-dynamic listener with pxyproto=true on the target *)
-Definition region_dyn_proxyproto (k : kind) (pp : bool) : bool :=
-  match k with KDyn => pp | _ => false end.
+(* F-C09-4 (tcp-dynamic ignored pxyproto=true) was repaired by 341d532: no region *)
